@@ -130,7 +130,7 @@ Section invr.
       apply InvR_set_clusters; [exact HI|]. intros i c0 v H. look_ins H; [cbn; intros E; inversion E; subst; exact Ev|apply (Hhc i c0 v H)].
     - unfold remove_health_check. destruct (clusters s !! id); cbn [fst]; auto.
       apply InvR_set_clusters; [exact HI|]. intros i c0 v H. look_ins H; [cbn; discriminate|apply (Hhc i c0 v H)].
-    - unfold add_listener. destruct (get_l k s !! a); cbn [fst]; auto. apply InvR_set_l; exact HI.
+    - unfold add_listener. destruct (needs_sid k && negb sid_ok); [exact HI|]. destruct (get_l k s !! a); cbn [fst]; auto. apply InvR_set_l; exact HI.
     - unfold remove_listener. destruct (kind_of proxy); [destruct (get_l l s !! a)|]; cbn [fst]; auto. apply InvR_set_l; exact HI.
     - unfold set_active. destruct (kind_of proxy); [destruct (get_l l s !! a)|]; cbn [fst]; auto. apply InvR_set_l; exact HI.
     - unfold set_active. destruct (kind_of proxy); [destruct (get_l l s !! a)|]; cbn [fst]; auto. apply InvR_set_l; exact HI.
